@@ -8,7 +8,7 @@
 (* and validation continues, so one run reports every rejection.           *)
 (* The orchestrator (bin/check) attributes failed conjuncts to properties. *)
 (***************************************************************************)
-EXTENDS Arith, Order, Text, Conv, BigIntM, ErrDec, Json
+EXTENDS Arith, Order, Text, Conv, BigIntM, ErrDec, Roots, Json
 T == ndJsonDeserialize("trace.ndjson")
 VARIABLE l
 
@@ -42,6 +42,12 @@ Verdict_a(ev) ==
                      /\ (ev.op = "quoint" => got.e = 0)
                      /\ (ev.op \in {"tointx", "tointv"} => (got.e = 0 \/ (got.e > 0 /\ ev.x.e > 0)))
                      /\ (ev.op = "reduce" => (IF IsZero(got.c) THEN got.e = 0 ELSE LastDigit(got.c) # 0))>>,
+       <<"root",  (ev.op \in {"sqrt", "cbrt"} /\ w.k = "skip" /\ ev.err = "" /\ ev.ctx.p > 0) =>
+                     /\ got.f = FIN /\ got.n = ev.x.n /\ ~IsZero(got.c)
+                     /\ (\/ Adj(got) < ev.ctx.emin \/ Adj(got) > ev.ctx.emax          \* outside the normal range: not claimed (DESIGN C11)
+                         \/ Bit(ev.fl, F_SUBN) \/ Bit(ev.fl, F_OVF)
+                         \/ IF ev.op = "sqrt" THEN SqrtOK(ev.x.c, ev.x.e, got.c, got.e, ev.ctx.p, Bit(ev.fl, F_INEXACT))
+                            ELSE CbrtOK(ev.x.c, ev.x.e, got.c, got.e, ev.ctx.p, Bit(ev.fl, F_INEXACT)))>>,
        <<"flags", FlagsOK(ev.op, w, got, ev.fl)>>,
        <<"flagimp", FlagImpOK(got, ev.fl)>>,
        <<"rnd",   (w.k = "fin" /\ ev.op \in {"quantize", "tointx"} /\ ~IsZero(ev.x.c)) =>
